@@ -65,13 +65,18 @@ func c07ObjectSetCreates(p *Program) []WriterSite {
 func (p *Program) c07InvocationList(call Call) (ssa.Value, string) {
 	args := callArgs(call.Common)
 	var s ssa.Value
-	for _, v := range p.possibleValues(args[2]) {
+	for _, v := range p.rvValuesX(args[2]) {
 		v = stripConv(v)
 		if isNilConst(v) {
 			continue
 		}
 		if sl, ok := v.(*ssa.Slice); ok {
+			// the list that is cut, resolved to where it is produced (the selection of current /
+			// previous may live in an extracted helper that receives the list as a parameter)
 			v = stripConv(sl.X)
+			if xs := p.rvValuesX(v); len(xs) == 1 {
+				v = stripConv(xs[0])
+			}
 		}
 		if s == nil {
 			s = v
@@ -85,9 +90,9 @@ func (p *Program) c07InvocationList(call Call) (ssa.Value, string) {
 	return s, ""
 }
 
-// c07Delayed: every path to site passes a complete revision-0 delay loop over `list` (any
-// ObjectSet list when list is nil), in the site's function or, bounded, in every caller.
-func (p *Program) c07Delayed(site ssa.Instruction, list ssa.Value, depth int) (bool, string) {
+// c07DelayLoopBefore: every path to site (within its function) passes a complete revision-0 delay
+// loop over `list` (any ObjectSet list when list is nil).
+func (p *Program) c07DelayLoopBefore(site ssa.Instruction, list ssa.Value) (bool, string) {
 	fn := site.Parent()
 	var whys []string
 	why := "no loop over the listed ObjectSets precedes it"
@@ -125,6 +130,68 @@ func (p *Program) c07Delayed(site ssa.Instruction, list ssa.Value, depth int) (b
 		}
 		setWhy(w + at)
 	}
+	return false, why
+}
+
+// c07Delayed: every path to site passes a complete revision-0 delay loop over `list` (any
+// ObjectSet list when list is nil), in the site's function or, bounded, in every caller.
+func (p *Program) c07Delayed(site ssa.Instruction, list ssa.Value, depth int) (bool, string) {
+	fn := site.Parent()
+	ok, why := p.c07DelayLoopBefore(site, list)
+	if ok {
+		return true, why
+	}
+	// the delay loop may have been extracted into a boolean helper (`if anyUnset(list) { return }`):
+	// the site is guarded by the helper's result, and every return of the helper that produces this
+	// result lies behind a complete delay loop over the helper's list parameter
+	for _, f := range p.FactsAtX(site.Block()) {
+		call, isCall := stripConv(f.Cond).(*ssa.Call)
+		if !isCall {
+			continue
+		}
+		h := staticCallee(call.Common())
+		if h == nil || !p.inlinable(h) || h == fn || h.Signature.Results().Len() != 1 {
+			continue
+		}
+		var prm *ssa.Parameter
+		for i, a := range call.Common().Args {
+			if i < len(h.Params) && rvIsAccessorSlice(a.Type()) && (list == nil || p.sameValue(a, list)) {
+				prm = h.Params[i]
+			}
+		}
+		if prm == nil {
+			continue
+		}
+		n, good := 0, true
+		note := ""
+		for _, rc := range p.returnCases(h) {
+			if h.Recover != nil && rc.Ret.Block() == h.Recover {
+				continue
+			}
+			if len(rc.Results) != 1 || rc.Results[0] == nil {
+				good = false
+				break
+			}
+			cb, isC := constBool(rc.Results[0])
+			if !isC {
+				good = false
+				break
+			}
+			if cb != f.Pol {
+				continue
+			}
+			n++
+			okl, w := p.c07DelayLoopBefore(rc.Ret, prm)
+			if !okl {
+				good = false
+				break
+			}
+			note = w
+		}
+		if good && n > 0 {
+			return true, "guarded by " + p.describeFact(f) + ": " + note
+		}
+	}
 	if depth <= 0 {
 		return false, why + " in " + shortFuncID(fn)
 	}
@@ -139,9 +206,10 @@ func (p *Program) c07Delayed(site ssa.Instruction, list ssa.Value, depth int) (b
 		return false, "closure creation site not found"
 	}
 	var callers []Call
-	if fn.Signature.Recv() != nil && rvIsSubReconcilerSig(fn.Signature) {
+	extracted := p.inlinable(fn)
+	if fn.Signature.Recv() != nil && rvIsSubReconcilerSig(fn.Signature) && !extracted {
 		// reachable through interface dispatch from every invocation with this signature
-		for _, c := range rvSubReconcilerCalls(p.productFuncs()) {
+		for _, c := range rvSubReconcilerCalls(p, p.productFuncs()) {
 			if c.Common.IsInvoke() || staticCallee(c.Common) == fn {
 				callers = append(callers, c)
 			}
@@ -158,8 +226,12 @@ func (p *Program) c07Delayed(site ssa.Instruction, list ssa.Value, depth int) (b
 	var notes []string
 	for _, c := range callers {
 		var lst ssa.Value
-		if rvIsSubReconcilerSig(rvCallSig(c.Common)) {
+		if rvIsSubReconcilerSig(rvCallSig(c.Common)) && !extracted {
 			lst, _ = p.c07InvocationList(c)
+		} else if extracted {
+			// an extracted helper is part of its caller: the same list must have been tested there
+			// (value identity crosses the boundary, see Program.key)
+			lst = list
 		}
 		ok, w := p.c07Delayed(c.Instr, lst, depth-1)
 		if !ok {
@@ -179,21 +251,21 @@ func c07r1(c *Ctx) {
 	for _, ws := range creates {
 		o := c.Ob(ws.Call.Fn, "Create-ObjectSet", ws.Call.Instr, c.rule.Statement)
 		o.Require("every path to the Create passes a loop over all listed ObjectSets that leaves when GetRevision()==0")
-		ok, why := p.c07Delayed(ws.Call.Instr, nil, 4)
+		ok, why := p.c07Delayed(ws.Call.Instr, nil, 6)
 		if ok {
 			o.OK(why)
 		} else {
 			o.Fail("ObjectSet can be created while a listed ObjectSet has not reported its revision: %s", why)
 		}
 	}
-	for _, call := range rvSubReconcilerCalls(p.FuncsIn(pkgObjDeploy)) {
+	for _, call := range rvSubReconcilerCalls(p, p.FuncsIn(pkgObjDeploy)) {
 		o := c.Ob(call.Fn, "subreconciler-invocation", call.Instr, c.rule.Statement)
 		lst, why := p.c07InvocationList(call)
 		if lst == nil {
 			o.Unknown("%s", why)
 			continue
 		}
-		ok, why := p.c07Delayed(call.Instr, lst, 2)
+		ok, why := p.c07Delayed(call.Instr, lst, 4)
 		if ok {
 			o.OK(why)
 		} else {
@@ -263,7 +335,7 @@ func c07r2(c *Ctx) {
 	if !ok {
 		return
 	}
-	calls := rvSubReconcilerCalls(p.FuncsIn(pkgObjDeploy))
+	calls := rvSubReconcilerCalls(p, p.FuncsIn(pkgObjDeploy))
 	if len(calls) == 0 {
 		c.AnchorLost("invocation of a sub-reconciler (ctx, ObjectSetAccessor, []ObjectSetAccessor, ObjectDeploymentAccessor)")
 	}
@@ -328,7 +400,11 @@ func c07r2(c *Ctx) {
 		k := p.key(s)
 		if _, seen := lists[k]; !seen {
 			lists[k] = s
-			listFns = append(listFns, fn)
+			lfn := fn
+			if in, isInstr := stripConv(s).(ssa.Instruction); isInstr && in.Parent() != nil {
+				lfn = in.Parent() // the function that obtains the list (the invocation may sit in an extracted helper)
+			}
+			listFns = append(listFns, lfn)
 		}
 	}
 	// the list is sorted ascending by revision
@@ -803,6 +879,7 @@ func (p *Program) c07CheckControllerRef(b c07Builder) (problems []string) {
 // c07IsLatestOfPrev: v is the revision of the last element of the previous list (directly or via
 // a helper that returns it).
 func (p *Program) c07IsLatestOfPrev(v, prev ssa.Value, depth int) bool {
+	v = p.rvParamRoot(v) // the value may have been handed to an extracted helper
 	if recv, _, ok := rvMethodOn(v, "GetRevision"); ok {
 		ia := rvElemAddr(recv)
 		return ia != nil && p.sameValue(ia.X, prev) && p.rvIsLastIndexOf(ia.Index, ia.X)
@@ -892,6 +969,8 @@ func c07r4(c *Ctx) {
 			if !after[rc.Ret] || len(rc.Results) != 2 {
 				continue
 			}
+			// the reuse test may be materialised in an extracted boolean helper
+			rc.Facts = p.xImplied(rc.Facts)
 			errRes := rc.Results[1]
 			if errRes == nil {
 				c.Ob(fn, "return-after-create", rc.Ret, c.rule.Statement).Unknown("error result cannot be resolved")
@@ -910,7 +989,7 @@ func c07r4(c *Ctx) {
 			if p.errOfCall(rc.Facts, create) == yesTri {
 				continue // created
 			}
-			if p.mustPrecede(rc.Ret, isBump) {
+			if p.mustPrecedeX(rc.Ret, isBump) {
 				nBump++
 				o := c.Ob(fn, "collision-bump", rc.Ret, "a name clash that is not a reuse bumps status.collisionCount by exactly one")
 				if why := p.c07CheckBump(fn, rc.Ret, dep); why != "" {
@@ -1032,6 +1111,11 @@ func (p *Program) c07IsUIDOf(v, acc ssa.Value) bool {
 
 func (p *Program) c07IsControllerUIDOf(v, acc ssa.Value) bool {
 	root, path := rvFieldPath(v)
+	if prm, isP := stripConv(root).(*ssa.Parameter); isP {
+		// the controller reference was handed to an extracted helper
+		r2, p2 := rvFieldPath(p.rvParamRoot(prm))
+		root, path = r2, append(p2, path...)
+	}
 	if strings.Join(path, ".") != "UID" {
 		return false
 	}
@@ -1045,10 +1129,12 @@ func (p *Program) c07IsControllerUIDOf(v, acc ssa.Value) bool {
 // c07CheckBump: the SetStatusCollisionCount call that precedes ret is given a pointer whose
 // pointee was incremented by one, and the pointer is the old count (or a fresh zero).
 func (p *Program) c07CheckBump(fn *ssa.Function, ret ssa.Instruction, dep ssa.Value) string {
-	for _, cc := range callsIn(fn) {
+	for _, xc := range p.callsInX(fn) {
+		cc := xc.Call
 		if calleeName(cc.Common) != "SetStatusCollisionCount" || !p.sameValue(callRecv(cc.Common), dep) {
 			continue
 		}
+		fn := cc.Fn // the bump may live in an extracted helper; the pointer arithmetic is local to it
 		arg := callArgs(cc.Common)[0]
 		// ptr.To(old+1) idiom
 		if pc, _ := asCall(arg); pc != nil && isCallTo(pc.Common(), "k8s.io/utils/ptr.To") {
@@ -1194,7 +1280,10 @@ func c07CheckHashFunc(c *Ctx, h *ssa.Function) {
 		o.Fail("the object to hash is not passed to an object hashing helper")
 		return
 	}
-	fromCount := func(v ssa.Value) bool {
+	// The write of the count may have been moved into an extracted helper (possibly shared with the
+	// other hash function): calls are taken from the inlined view and the helper's parameters are
+	// interpreted through the chain of calls that leads to them.
+	fromCount := func(v ssa.Value, chain []Call) bool {
 		for i := 0; i < 4; i++ {
 			if cv, ok := v.(*ssa.Convert); ok {
 				v = cv.X
@@ -1203,23 +1292,24 @@ func c07CheckHashFunc(c *Ctx, h *ssa.Function) {
 			break
 		}
 		ld, ok := v.(*ssa.UnOp)
-		return ok && ld.Op == token.MUL && ld.X == ssa.Value(cnt)
+		return ok && ld.Op == token.MUL && p.xcResolve(ld.X, chain) == ssa.Value(cnt)
 	}
 	ok := false
 	why := "no Write of bytes derived from *collisionCount into the hasher"
-	for _, cc := range callsIn(h) {
-		if calleeName(cc.Common) != "Write" || callRecv(cc.Common) == nil || stripConv(callRecv(cc.Common)) != hasher {
+	for _, xc := range p.callsInX(h) {
+		cc := xc.Call
+		if calleeName(cc.Common) != "Write" || callRecv(cc.Common) == nil || p.xcResolve(callRecv(cc.Common), xc.Chain) != hasher {
 			continue
 		}
 		data := callArgs(cc.Common)[0]
 		filled := false
-		for _, fc := range callsIn(h) {
+		for _, fc := range callsIn(cc.Fn) {
 			hasData, hasCount := false, false
 			for _, a := range fc.Common.Args {
 				if a == data {
 					hasData = true
 				}
-				if fromCount(a) {
+				if fromCount(a, xc.Chain) {
 					hasCount = true
 				}
 			}
@@ -1232,12 +1322,30 @@ func c07CheckHashFunc(c *Ctx, h *ssa.Function) {
 			why = "the bytes written at " + p.IPos(cc.Instr) + " are not derived from *collisionCount"
 			continue
 		}
-		if !p.mustPrecede(cc.Instr, func(x ssa.Instruction) bool { return x == ssa.Instruction(objCall) }) {
+		if !p.xcMustPrecede(xc, func(x ssa.Instruction) bool { return x == ssa.Instruction(objCall) }) {
 			why = "the collision count is written at " + p.IPos(cc.Instr) + " before the object is hashed; hashing the object resets the hasher, so the count is lost"
 			continue
 		}
-		if p.nilnessFromFacts(p.FactsAt(cc.Instr.Block()), cnt) != noTri {
+		if p.xcNilness(xc, cnt) != noTri {
 			why = "the write of the collision count is not under collisionCount != nil"
+			continue
+		}
+		// ... and under nothing else: every non-nil count must reach the hasher
+		extra := ""
+		onlyNilTests := func(in ssa.Instruction, chain []Call) {
+			for _, f := range p.FactsAt(in.Block()) {
+				if y, _, isNilTest := errNilTest(f.Cond); isNilTest && p.xcResolve(y, chain) == ssa.Value(cnt) {
+					continue
+				}
+				extra = p.describeFact(f)
+			}
+		}
+		onlyNilTests(cc.Instr, xc.Chain)
+		for i := range xc.Chain {
+			onlyNilTests(xc.Chain[i].Instr, xc.Chain[:i])
+		}
+		if extra != "" {
+			why = "the write of the collision count at " + p.IPos(cc.Instr) + " is skipped for some non-nil counts (additionally guarded by " + extra + ")"
 			continue
 		}
 		ok = true
